@@ -175,6 +175,22 @@ func genC15(t *rapid.T) *FileCase {
 			}
 		}
 	}
+	// a plain label whose name ends in the name of its script (LeaveShop in script Shop) is a label like any other
+	if rapid.IntRange(0, 3).Draw(t, "suffixlabel") == 0 {
+		for _, sc := range c.File.Scripts() {
+			done := false
+			walkStmts(sc.Body, func(s *Stmt) {
+				if !done && s.K == "label" && s.Label.Scope != "global" {
+					old := s.Label.Name
+					renameLabel(c.File, old, "Leave"+sc.Name)
+					done = true
+				}
+			})
+			if done {
+				break
+			}
+		}
+	}
 	// names of generated shape that clash with nothing: the documented scopes apply to them like to any other name
 	n := rapid.IntRange(0, 2).Draw(t, "shapednames")
 	for i := 0; i < n; i++ {
@@ -199,4 +215,38 @@ func TestC15_Scopes(t *testing.T) {
 	st := stat("C15")
 	st.SetRule("whole files of up to 7 top-level statements of every kind, each with no modifier, (global) or (local); labels inside scripts with and without modifiers; programs that make the compiler invent sub-labels, hoisted text/movement labels, inline map scripts and tables; every label definition of the output (optimize off and on) is classified by the model and its '::' / ':' must match the modifier, the documented default (script/text/mapscripts global, movement/mart/in-script labels local) or 'invented => local'. non-trivial = >= 3 statement kinds, >= 1 non-default modifier and >= 2 kinds of invented labels; distinct by source text")
 	runRapid(t, "C15", "TestC15_Scopes", genC15, checkC15, fileCaseSrc)
+}
+
+// renameLabel renames a user label and every command argument that names it.
+func renameLabel(f *File, old, new string) {
+	for _, tp := range f.Tops {
+		var blocks []*Block
+		if tp.K == "script" {
+			blocks = append(blocks, tp.Script.Body)
+		}
+		if tp.K == "mapscripts" {
+			for _, e := range tp.Map.Entries {
+				blocks = append(blocks, e.Body)
+				for _, r := range e.Rows {
+					blocks = append(blocks, r.Body)
+				}
+			}
+		}
+		for _, b := range blocks {
+			walkStmts(b, func(s *Stmt) {
+				if s.K == "label" && s.Label.Name == old {
+					s.Label.Name = new
+				}
+				if s.K == "cmd" {
+					for _, a := range s.Cmd.Args {
+						for i, tk := range a.Toks {
+							if tk == old {
+								a.Toks[i] = new
+							}
+						}
+					}
+				}
+			})
+		}
+	}
 }
